@@ -9,7 +9,9 @@ from . import common
 PROP = "C07"
 
 EDGE_KINDS = ["req", "opt", "nullable", "tuple", "array", "vec", "map"]
-BY_VALUE = {"req", "opt", "nullable", "tuple", "array"}
+BY_VALUE = {"req", "opt", "nullable", "tuple", "array", "array32", "array1"}
+# fixed arrays at the ends of the range that is emitted inline ([T; 1] .. [T; 32]); used in random graphs and n<=2 extras
+EDGE_KINDS_X = EDGE_KINDS + ["array32", "array1"]
 NODE_KINDS = ["struct", "alias", "enum"]
 # "flat": anyOf of overlapping object schemas, generated as a struct of flattened Option<branch> members (by value)
 NODE_KINDS_X = NODE_KINDS + ["flat"]
@@ -29,6 +31,10 @@ def edge_schema(kind, j):
         return {"type": "array", "items": [t, {"type": "integer"}], "minItems": 2, "maxItems": 2}
     if kind == "array":
         return {"type": "array", "items": t, "minItems": 2, "maxItems": 2}
+    if kind == "array32":
+        return {"type": "array", "items": t, "minItems": 32, "maxItems": 32}
+    if kind == "array1":
+        return {"type": "array", "items": t, "minItems": 1, "maxItems": 1}
     if kind == "vec":
         return {"type": "array", "items": t}
     if kind == "map":
@@ -194,6 +200,12 @@ def enumerate_graphs(tier, seed):
                 flat.append(("f2", 2, ["flat", nk], [(0, 1, k1), (1, 0, k2)], None))
                 flat.append(("f2", 2, ["flat", nk], [(0, 1, k1), (0, 0, k2)], None))
                 flat.append(("f2", 2, [nk, "flat"], [(0, 1, k1), (1, 0, k2)], [1, 0]))
+    for nk in NODE_KINDS:
+        for k1 in ("array32", "array1"):
+            flat.append(("x1", 1, [nk], [(0, 0, k1)], None))
+            for k2 in EDGE_KINDS_X:
+                flat.append(("x2", 2, [nk, "struct"], [(0, 1, k1), (1, 0, k2)], None))
+                flat.append(("x2", 2, ["struct", nk], [(0, 1, k2), (1, 0, k1)], [1, 0]))
     out += flat
     if tier == "thorough":
         out += full2 + full3
@@ -208,7 +220,7 @@ def enumerate_graphs(tier, seed):
         n = rr.randrange(2, 9)
         nks = [rr.choice(NODE_KINDS_X if i % 2 else NODE_KINDS) for _ in range(n)]
         m = rr.randrange(n, 2 * n + 2)
-        edges = [(rr.randrange(n), rr.randrange(n), rr.choice(EDGE_KINDS)) for _ in range(m)]
+        edges = [(rr.randrange(n), rr.randrange(n), rr.choice(EDGE_KINDS_X if i % 4 == 1 else EDGE_KINDS)) for _ in range(m)]
         if i % 3 == 0:
             # forward edges only: no cycle at all, so no Box may appear
             edges = [(min(a, b), max(a, b), k) for a, b, k in edges if a != b]
